@@ -17,7 +17,7 @@ import RsMatterVerif.Lemmas.CodecMdnsRound
 import RsMatterVerif.Lemmas.CodecMdnsService
 import RsMatterVerif.Lemmas.CodecX509Sound -- E3
 import RsMatterVerif.Lemmas.CodecCd -- E3
-import RsMatterVerif.Lemmas.CodecDerLinkWalk -- G5 (audit C17 concern 2; imports CodecDerLinkX509, CodecDerLink)
+import RsMatterVerif.Lemmas.CodecDerLinkFull -- G5 (audit C17 concern 2; imports CodecDerLinkWalk, CodecDerLinkX509, CodecDerLink)
 /-!
 # C17 — headers, onboarding payloads and discovery records decode what was encoded
 
@@ -91,6 +91,14 @@ theorem proto_hdr_decode_refines (h0 : ProtoHdr.Hdr) (b : RBuf) (hb : b.Inv) :
     NoPanic (ProtoHdr.decode0 h0 b) :=
   have h := ProtoHdr.decode0_sim h0 b rfl rfl hb
   ⟨SimR.refinesCur hb h, h.noPanic⟩
+
+/-- … including the checked `parsebuf.as_slice()` inside the `trace!("[rx payload]: …")` that ends `decrypt_and_decode`
+(evaluated when trace logging is on): it cannot fail, the traced decoder is the decoder -/
+theorem proto_hdr_decode_traced (h0 : ProtoHdr.Hdr) (b : RBuf) (hb : b.Inv) :
+    ProtoHdr.decode0Traced h0 b = ProtoHdr.decode0 h0 b ∧ NoPanic (ProtoHdr.decode0Traced h0 b) := by
+  rw [ProtoHdr.decode0Traced_eq h0 b hb]
+  exact ⟨rfl, (proto_hdr_decode_refines h0 b hb).2⟩
+example : (RBuf.new [0x05, 0x20, 1, 0, 0, 0, 9, 9]).Inv := RBuf.new_inv _
 
 /-- `StatusReport::read` (three reads and the checked `as_slice()`) -/
 theorem status_report_read_refines (b : RBuf) (hb : b.Inv) :
@@ -346,9 +354,11 @@ example : (QrPayload.parse [77, 84, 58, 89, 46, 75, 57, 48, 52, 50, 67, 48, 48, 
     (fun q => (q.version, q.vid, q.pid, q.disc, q.pass)) = some (0, 65521, 32768, 3840, 20202021) := rfl
 
 /-- soundness of acceptance: whatever `QrPayload::parse` accepts has version 0 and a defined commissioning flow.
-(All other fixed fields fill their bit width, so they have no out-of-range value at codec level; the passcode's
-*legal* values — 1..99999998 without the trivial ones — and the padding bits are deliberately not checked by
-`parse`, see docs/C17.md.) -/
+(Criterion, the same for every onboarding codec: refused at codec level = the values for which the v1 layout or an
+enumeration is undefined — version ≠ 0, flow 3, manual-code first digit 8 / 9. The semantic legality of a correctly
+decoded field — passcode 0, > 99999998 or one of the trivial ones, an empty rendezvous set, padding / reserved bits — is the
+subject of the validator `QrPayload::is_valid`, not of `parse`, as in the reference SDK; see docs/C17.md, "Observations for the
+maintainers": that validator is not callable on the parsed type.) -/
 theorem qr_accepts_only_version0_defined_flow (s : List Nat) (cap : Nat) (q : QrPayload.Qr)
     (h : QrPayload.parse s cap = .ok q) : q.version = 0 ∧ q.flow ≤ 2 :=
   QrPayload.parse_ok_version_flow s cap q h
@@ -1269,7 +1279,9 @@ The statements live (with docstrings and non-vacuity examples) in `Lemmas/CodecD
 `Codec.CertAsn1.hexRead_hexUp`, `Codec.CertAsn1.parseHexU16_hexUp`, `Codec.CertAsn1.asn1_tbs_layout`,
 `C17.cert_x509_field_readers`; `Lemmas/CodecDerLinkWalk.lean`: `Codec.DerRd.x509New_tbs_refused`, `Codec.CertAsn1.cal_days`,
 `Codec.CertAsn1.calOf_agree`, `Codec.CertAsn1.run_validity_asn1`, `C17.cert_x509_tbs_walk`, `Codec.DerRd.fails_extLoop`,
-`C17.cert_x509_exts_read`, `C17.cert_x509_exts_eku_refused`. -/
+`C17.cert_x509_exts_read`, `C17.cert_x509_exts_eku_refused`; `Lemmas/CodecDerLinkFull.lean`: `Codec.CertAsn1.extOfDer_known`,
+`Codec.CertAsn1.certFieldsOfDer_eq_rd`, `C17.cert_der_roundtrip_rd` (no `parseDer` left), `Codec.CertAsn1.attr_integer_read_back`,
+`C17.cert_dn_integers_read_back`, and the instances of the `cert_x509_*` theorems on `certSampleX509`. -/
 namespace C17
 open Codec Codec.Der Codec.CertAsn1
 
